@@ -20,8 +20,12 @@ def _mk_steps(k):
     for i in range(k):
         c = COEF[i]
         key = "P%d" % i
-        flavour = i % 4
-        if flavour == 0:
+        flavour = i % 5
+        if flavour == 4:
+            # an Evaluatable that yields a callable but is neither a PipelineStep nor a Pipeline
+            steps.append(F.partial((lambda c: (lambda x, p: c * x + p))(c), p=Option(key)))
+            fns.append((c, key))
+        elif flavour == 0:
             def mk(c=c, key=key):
                 @pipeline_step
                 def s(x, p=Option(key)):
@@ -68,9 +72,9 @@ def _expect(fns, x, o):
     return x
 
 
-@harness("C13", lemma="assoc", cubes={"k": [2, 3, 4]}, example=dict(k=3, x=2, p0=1, p1=1, p2=1, p3=1, p4=1, p5=1), timeout=240,
-         bounds="k <= 4 steps (decorated step with option parameter / nested helper pipeline / plain callable / pipeline with an "
-                "empty pipeline inside), every bracketing (Catalan(k-1)); input and option values unbounded ints",
+@harness("C13", lemma="assoc", cubes={"k": [2, 3, 4, 5]}, example=dict(k=3, x=2, p0=1, p1=1, p2=1, p3=1, p4=1, p5=1), timeout=240,
+         bounds="k <= 5 steps (decorated step with option parameter / nested helper pipeline / plain callable / pipeline with an "
+                "empty pipeline inside / F.partial(...) evaluatable that is not a step), every bracketing (Catalan(k-1)); input and option values unbounded ints",
          what="every bracketing of p1 + ... + pk transforms x like applying the steps in order with parameters read from the same "
               "options; Pipeline() is a left and right identity; (p + q).transform(x, o) == q.transform(p.transform(x, o), o); "
               "keys()/explain() of the composition contain every parameter key")
@@ -401,6 +405,10 @@ def helpers_functional(a: int, b: int, t: int) -> int:
         (mo >> F.filter_values(above) >> dict, {k: v for k, v in m.items() if v > t}),
         (mo >> F.filter_keys(F.eq("k1")) >> dict, {"k1": a}),
         (mo >> F.filter_items(lambda k, v: v > 0) >> dict, {k: v for k, v in m.items() if v > 0}),
+        # the mapping helpers return read-only mappings and must accept them: chains of two helpers, both bracketings
+        (mo >> F.map_values(F.add(Option("T"))) >> F.filter_keys(F.eq("k1")) >> dict, {"k1": a + t}),
+        (mo >> (F.map_keys(F.add("_")) + F.map_items(lambda k, v: (k, -v))) >> dict, {"k1_": -a, "k2_": -b}),
+        (mo >> F.filter_values(above) >> F.map_values(F.negate) >> dict, {k: -v for k, v in m.items() if v > t}),
     ]
     for ev, exp in mchecks:
         got = outcome(lambda: ev(om))
